@@ -65,9 +65,18 @@ func init() {
 			emit(&Out{Item: it.ID, Kind: "inconsistent", What: err.Error()})
 			return
 		}
-		if cs, _ := lr.ConflictStates(); len(cs) > 0 {
-			emit(&Out{Item: it.ID, Kind: "inconsistent", What: "ErrFam grammar has conflicts"})
-			return
+		if cs, acc := lr.ConflictStates(); len(cs) > 0 {
+			// only items generated with -a may have conflicts; the recovery rule then runs over the resolved tables
+			auto := false
+			for _, f := range it.Flags {
+				if f == "-a" {
+					auto = true
+				}
+			}
+			if !auto || acc {
+				emit(&Out{Item: it.ID, Kind: "inconsistent", What: "ErrFam grammar has conflicts"})
+				return
+			}
 		}
 		var terms []string
 		for _, t := range c.Terms {
